@@ -51,7 +51,10 @@ fn make(r: &mut Rng, degree_bits: usize, noracles: usize, hiding: bool, cfg: &Fr
         let blinding = oi > 0 && r.coin();
         let polys: Vec<PolynomialCoeffs<F>> = (0..npolys).map(|pi| {
             let mut c: Vec<F> = (0..n).map(|_| rand_f(r)).collect();
-            match (pi + oi) % 4 { 0 => {}, 1 => { for x in c.iter_mut().skip(n / 2) { *x = F::ZERO } }, 2 => { for x in c.iter_mut().skip(1) { *x = F::ZERO } }, _ => { c[n - 1] = F::ONE } }
+            // shapes of committed polynomials: random, zero upper half, constant, monic top coefficient, and the
+            // identically ZERO polynomial (an unused column) - opened at the later points as well
+            match (pi + 2 * oi) % 5 { 0 => {}, 1 => { for x in c.iter_mut().skip(n / 2) { *x = F::ZERO } }, 2 => { for x in c.iter_mut().skip(1) { *x = F::ZERO } },
+                                      3 => { c[n - 1] = F::ONE } _ => { for x in c.iter_mut() { *x = F::ZERO } } }
             PolynomialCoeffs::new(c)
         }).collect();
         let _ = high_degree;
